@@ -846,6 +846,8 @@ def impl_confocal(case):
     if "raw1" not in obs:
         return r + ["not-written"] * (5 - len(r))
     raw = obs["raw1"]
+    if not raw:  # export_tiff returned without writing a single page: an answer (judged by the oracle), not a crash of the harness
+        return r + ["no-pages"] * (5 - len(r))
     dt = raw[0]["dt"]
     a2 = dt if case["kind"] == "kymo" else enc_list([ord(ch) for ch in dt])
     ms = written_ms(raw)
@@ -1202,7 +1204,7 @@ def mixin_direct(case, obs):
         raw = read_raw(p1)
         obs["raw"] = raw
         a1 = "ok " + enc_ratlist([x for p in raw for x in arr_rats(p["img"])])
-        a2 = enc_list([ord(ch) for ch in raw[0]["dt"]])
+        a2 = enc_list([ord(ch) for ch in raw[0]["dt"]]) if raw else "no-pages"
         try:
             parse = private("lumicks.pylake.detail.widefield", "_get_page_timestamps")
             if parse is not None:
@@ -1344,6 +1346,8 @@ def oracle_mixin(case, ia):
             got = [x for p in obs["raw"] for x in arr_rats(p["img"])]
             if got != want:
                 bad = next((i for i, (g, w_) in enumerate(zip(got, want)) if g != w_), -1)
+                if bad < 0:
+                    return f"pixels: {len(got)} values written for {len(want)} values in {len(obs['raw'])} pages ({case['dtype']} clip={case['clip']})"
                 return f"pixels: value #{bad} ({vals[bad]}) written as {got[bad]}, expected {want[bad]} for {case['dtype']} clip={case['clip']}"
             for i, p in enumerate(obs["raw"]):
                 a, b = case["dead"][i]
@@ -1369,6 +1373,8 @@ def oracle_mixin(case, ia):
             got = obs["pub_flat"]
             if got[: len(want)] != want:
                 bad = next((i for i, (g, w_) in enumerate(zip(got, want)) if g != w_), -1)
+                if bad < 0:
+                    return f"pixels: {len(got)} values written for {len(want)} values ({case['dtype']} clip={case['clip']})" + via
                 return f"pixels: value #{bad} ({vals[bad]}) written as {got[bad]}, expected {want[bad]} for {case['dtype']} clip={case['clip']}" + via
             if any(x != 0 for x in got[len(want):]):
                 return f"pixels: an empty pixel (0 photons) was written as a non-zero value for {case['dtype']} clip={case['clip']}" + via
@@ -1834,6 +1840,9 @@ def impl_align(case):
                 obs["error"] = repr(e)
                 return [errname(e), errname(e)]
             obs["raw2"], obs["raw3"] = raw2, raw3
+            if not raw2 or not raw3:
+                obs["error"] = "an export wrote no pages"
+                return ["no-pages", "no-pages"]
             k2, k3 = list(json.loads(raw2[0]["desc"]).keys()), list(json.loads(raw3[0]["desc"]).keys())
             obs["k2"], obs["k3"] = k2, k3
             return [enc_keys(k2), enc_keys(k3)]
